@@ -407,6 +407,118 @@ def stage_store_roundtrip(report, tier, rng, dist, prop='C09'):
         shutil.rmtree(d, ignore_errors=True)
     return done
 
+def stage_listing(report, tier, rng, dist):
+    """Lab.cached_tasks against Model/Listing.v: storages filled by real runs of tasks of ten types (prefix-related names, the
+    same name in several modules, two cache formats), then salted with foreign entries (an entry copied under a key that
+    starts with another type's name, an entry whose metadata names another cache class or none, and - in some storages - an
+    entry whose stored task cannot be rebuilt); the entries are read back from the storage directory and handed to the model
+    together with each query (single types, pairs in both orders, a type twice, everything)."""
+    import shutil
+    import lv_universe2 as U2
+    import lv_pkg.sub.defs as PD
+    import lv_pkg.other as PO
+    from labtech.lab import Lab
+    types = [U.V2, U.V, U.VV, U2.V2, U.VJ, U.V1, U.VPost, PD.V2, PO.V2, U.VRewrite]
+
+    def tt(ty):
+        return ('{| tt_cls := %s; tt_prefix := %s; tt_cache := %s |}' % (
+            V.g_s(f'{ty.__module__}.{ty.__qualname__}'), V.g_s(ty._lt.cache.KEY_PREFIX), V.g_s(type(ty._lt.cache).__qualname__)))
+    d = tempfile.mkdtemp(dir=subdir('listing'))
+    # the class environment of the other stages, plus the two types only this stage stores
+    extra = g_list([f'({V.g_s("lv_universe.VJ")}, {g_list([V.g_s("x")])})', f'({V.g_s("lv_universe.VRewrite")}, {g_list([V.g_s("x")])})'])
+    imports = (V.VALUES_IMPORTS + 'Require Import LT.Model.Listing.\n'
+               f'Definition env2 : env := {{| task_classes := task_classes the_env ++ {extra}; enum_classes := enum_classes the_env |}}.\n')
+    defs, terms, kept = [], [], []
+    try:
+        for b in range(3 if tier == 'quick' else 24):
+            storage = os.path.join(d, f's{b}')
+            lab = Lab(storage=storage, runner_backend='serial', notebook=False)
+            tasks = []
+            for _ in range(rng.randint(8, 30)):
+                spec = V.gen_spec(rng, bad=0.0, reserved=0.0, nan=False, mixed=True)
+                try:
+                    ty = rng.choice(types)
+                    tasks.append(ty(a=V.build(spec), b=None) if ty is U.V1 else ty(x=V.build(spec)))
+                except BaseException:   # noqa
+                    continue
+            uniq = []
+            for t in tasks:
+                if not any(t == u for u in uniq):
+                    uniq.append(t)
+            lab.run_tasks(uniq, disable_progress=True, disable_top=True)
+            keys = sorted(os.listdir(storage))
+            keys = [k for k in keys if os.path.isdir(os.path.join(storage, k))]
+            salted = []
+            if keys:
+                def copy_as(src, dst, edit=None):
+                    if os.path.exists(os.path.join(storage, dst)):
+                        return
+                    shutil.copytree(os.path.join(storage, src), os.path.join(storage, dst))
+                    if edit:
+                        mp = os.path.join(storage, dst, 'metadata.json')
+                        md = json.load(open(mp))
+                        edit(md)
+                        json.dump(md, open(mp, 'w'))
+                    salted.append(dst)
+                k = rng.choice(keys)
+                copy_as(k, 'V' + k)                                             # starts with V (and VV, V1, V2 ... when k does)
+                copy_as(rng.choice(keys), 'V2__' + 'f' * 40)
+                copy_as(rng.choice(keys), rng.choice(keys) + 'x', lambda md: md.__setitem__('cache', 'OtherCache'))
+                copy_as(rng.choice(keys), rng.choice(keys) + 'y', lambda md: md.pop('cache'))
+                if b % 4 == 3:
+                    copy_as(rng.choice(keys), rng.choice(keys) + 'z', lambda md: md['task'].__setitem__('__class__', 'lv_universe.Gone'))
+                if b % 4 == 2:
+                    copy_as(rng.choice(keys), rng.choice(keys) + 'w', lambda md: md['task'].__setitem__('surplus', 1))
+            dist['listing_salted_entries'] += len(salted)
+            # the storage as load_metadata sees it, in find_keys order
+            tokens = {}
+            entries = []
+            for key in lab._storage.find_keys():
+                try:
+                    md = json.load(open(os.path.join(storage, key, 'metadata.json')))
+                except (OSError, ValueError):
+                    continue
+                tok = tokens.setdefault((md.get('start_timestamp'), md.get('duration_seconds')), len(tokens))
+                cache = md.get('cache')
+                entries.append('{| en_key := %s; en_cache := %s; en_task := %s; en_meta := %d |}' % (
+                    V.g_s(key), V.g_opt(V.g_s(cache)) if isinstance(cache, str) else 'None', V.g_json(md['task']), tok))
+            dist['listing_entries'] += len(entries)
+            defs.append(f'Definition store_{b} : list entry := {g_list(entries)}.')
+            queries = [[ty] for ty in types] + [[U.V, U.VV], [U.VV, U.V], [U.V, U.V], [U.V2, U2.V2, PD.V2, PO.V2], [U.VJ, U.V], list(types), list(reversed(types))]
+            queries += [rng.sample(types, rng.randint(1, 4)) for _ in range(4)]
+            for q in queries:
+                try:
+                    got = lab.cached_tasks(q)
+                    obs = []
+                    for g in got:
+                        rm = g.result_meta
+                        tk = (rm.start.isoformat() if rm is not None and rm.start is not None else None,
+                              rm.duration.total_seconds() if rm is not None and rm.duration is not None else None)
+                        obs.append(f'({V.g_value_py(g)}, {tokens.setdefault(tk, len(tokens))})')
+                    got_term = f'(Some {g_list(obs)})'
+                    dist['listing_listed'] += len(got)
+                except BaseException:   # noqa
+                    got_term = 'None'
+                    dist['listing_raised'] += 1
+                terms.append('{| lc_types := %s; lc_store := store_%d; lc_got := %s |}' % (g_list([tt(ty) for ty in q]), b, got_term))
+                kept.append(dict(storage_batch=b, query=[f'{ty.__module__}.{ty.__qualname__}' for ty in q], salted=salted))
+        dist['listing_queries'] = len(terms)
+        bad = coq_failing('corr_C09_listing', imports + '\n'.join(defs) + '\n', terms, 'check_lcase deser_mode_src env2')
+        if bad:
+            from common import coq_eval, decode_strs
+            shown = coq_eval('corr_C09_listing_show', imports + '\n'.join(defs) + '\n'
+                             + f'Definition c := {terms[bad[0]]}.\n'
+                             + 'Eval vm_compute in (option_map (map (fun tm => (task_cls (fst tm), snd tm))) (cached_tasks deser_mode_src env2 (lc_types c) (lc_store c)),'
+                               ' option_map (map (fun tm => (task_cls (fst tm), snd tm))) (lc_got c), map en_key (lc_store c)).\n')
+            report.broke(f'correspondence Model/Listing.v vs Lab.cached_tasks: {len(bad)} of {len(terms)} queries differ',
+                         json.dumps(dict(first=kept[bad[0]], model_then_code_then_keys=' '.join(decode_strs(shown).split())[:3000])))
+            # which clause of the property does the real listing break on that storage?  the store-level monitors of
+            # stage_store_roundtrip run on every check; here only the disagreement itself is recorded
+    finally:
+        shutil.rmtree(d, ignore_errors=True)
+    return len(terms)
+
+
 # D9 witnesses (known_findings.json): dict parameters spelling a serialised enum / task, and the real ones
 WITNESSES = [
     ['enum', 'lv_universe', 'Color', 'RED'],
@@ -465,6 +577,8 @@ def run(prop, report, tier, seed, replay=None):
         dist['cross_process_copies'] = len(okspecs)
     if prop == 'C09' and (replay is None or replay['input'].get('level') == 'store'):
         stage_store_roundtrip(report, tier, rng, dist)
+    if prop == 'C09' and replay is None:
+        stage_listing(report, tier, rng, dist)
     if prop == 'C07' and (replay is None or replay['input'].get('level') == 'store'):
         # "... or reconstruction from cache metadata": through the real metadata file, not only the serializer
         stage_store_roundtrip(report, tier, rng, dist, prop='C07')
